@@ -1217,3 +1217,49 @@ N('lcg-64-bit-product-two-folds', 'C19',
     if (lo > m_max)""", """    hi = (unsigned long) m_a * (unsigned long) seed;
     lo = (hi & m_max) + (hi >> 31);
     if (lo > m_max)""")], 'the same map written with one 64-bit product and one fold plus the final reduction: must stay silent')
+# ----------------------------------------------------------------------------- view storage (session 4, seed C16m)
+N('svd-scale-through-a-helper', 'C16',
+  [('contrib/PartialSVDSolver.h', """    using std::abs;
+    Scalar s(0);
+    for (Eigen::Index j = 0; j < mat.outerSize(); j++)
+    {
+        for (typename RefType::InnerIterator it(mat, j); it; ++it)
+        {
+            s = (std::max)(s, Scalar(abs(it.value())));
+        }
+    }
+    return (s > Scalar(0) && (std::isfinite)(s)) ? s : Scalar(1);
+}
+""", """    const Scalar s = svd_largest_magnitude<Scalar>(mat);
+    return (s > Scalar(0) && (std::isfinite)(s)) ? s : Scalar(1);
+}
+"""),
+   ('contrib/PartialSVDSolver.h', """// Largest magnitude of the entries of a dense or sparse matrix; 1 if that is zero or not finite
+""", """template <typename Scalar, typename RefType>
+Scalar svd_largest_magnitude(const RefType& mat)
+{
+    using std::abs;
+    Scalar s(0);
+    for (Eigen::Index j = 0; j < mat.outerSize(); j++)
+    {
+        for (typename RefType::InnerIterator it(mat, j); it; ++it)
+        {
+            s = (std::max)(s, Scalar(abs(it.value())));
+        }
+    }
+    return s;
+}
+// Largest magnitude of the entries of a dense or sparse matrix; 1 if that is zero or not finite
+""")], 'the reduction moved into a helper: same scale (the provenance of the scale is followed through helpers)')
+# ----------------------------------------------------------------------------- back-transformation formulas (session 4, seed C03m)
+M('buckling-backtransform-one-plus-reciprocal', 'C03,C04', 'back-transformation-formula-well-conditioned',
+  [('SymGEigsShiftSolver.h', "m_ritz_val.head(m_nev).array() = m_sigma * m_ritz_val.head(m_nev).array() /\n            (m_ritz_val.head(m_nev).array() - Scalar(1));",
+    "m_ritz_val.head(m_nev).array() = m_sigma * (Scalar(1) + Scalar(1) / (m_ritz_val.head(m_nev).array() - Scalar(1)));")],
+  'sigma (1 + 1/(nu-1)): same map, 1 - (1 + nu + ..) cancels for |sigma| >> |lambda|')
+N('cayley-backtransform-shift-plus-correction', 'C03,C04',
+  [('SymGEigsShiftSolver.h', "m_ritz_val.head(m_nev).array() = m_sigma * (m_ritz_val.head(m_nev).array() + Scalar(1)) /\n            (m_ritz_val.head(m_nev).array() - Scalar(1));",
+    "m_ritz_val.head(m_nev).array() = m_sigma + Scalar(2) * m_sigma / (m_ritz_val.head(m_nev).array() - Scalar(1));")],
+  'sigma + 2 sigma/(nu-1) cancels for |sigma| >> |lambda| -- but there the Cayley map itself has condition |sigma / 2 lambda| (nu -> -1): the formula loses no more than the map, silent')
+N('buckling-backtransform-divide-first', 'C03,C04',
+  [('SymGEigsShiftSolver.h', "m_ritz_val.head(m_nev).array() = m_sigma * m_ritz_val.head(m_nev).array() /\n            (m_ritz_val.head(m_nev).array() - Scalar(1));",
+    "m_ritz_val.head(m_nev).array() = m_sigma * (m_ritz_val.head(m_nev).array() /\n            (m_ritz_val.head(m_nev).array() - Scalar(1)));")], 'sigma * (nu / (nu - 1)): same conditioning')
